@@ -16,6 +16,9 @@ import (
 
 	"github.com/osmosis-labs/osmosis/osmomath"
 	"github.com/osmosis-labs/osmosis/v31/app"
+	clmath "github.com/osmosis-labs/osmosis/v31/x/concentrated-liquidity/math"
+	clmodel "github.com/osmosis-labs/osmosis/v31/x/concentrated-liquidity/model"
+	cltypes "github.com/osmosis-labs/osmosis/v31/x/concentrated-liquidity/types"
 	"github.com/osmosis-labs/osmosis/v31/x/gamm/pool-models/balancer"
 	gammtypes "github.com/osmosis-labs/osmosis/v31/x/gamm/types"
 	lockuptypes "github.com/osmosis-labs/osmosis/v31/x/lockup/types"
@@ -41,6 +44,15 @@ type Config struct {
 	SwapOsmoIn       string    `json:"swap_bond_denom_in"`
 	SwapFooIn        string    `json:"swap_foo_in"`
 	StartHeight      int64     `json:"seed_height"` // every seed ends at this height (the lockup sweep runs when height%120==0)
+	// the concentrated pool foo/bond-denom whose full-range share denom cl/pool/N is the second superfluid asset
+	CLPoolFoo    string       `json:"cl_pool_foo"` // the pool creator's unlocked full-range position
+	CLPoolOsmo   string       `json:"cl_pool_bond_denom"`
+	CLSpread     string       `json:"cl_spread_factor"`
+	CLAmounts    [2][2]string `json:"cl_position_amounts"` // per owner A, B: {foo, bond denom} offered to CreateFullRangePositionAndSuperfluidDelegate
+	CLAdd        [2]string    `json:"cl_add_amounts"`      // {foo, bond denom} offered to AddToConcentratedLiquiditySuperfluidPosition
+	CLSwapOsmoIn string       `json:"cl_swap_bond_denom_in"`
+	CLSwapFooIn  string       `json:"cl_swap_foo_in"`
+	UCSLiquid    string       `json:"convert_liquid_shares"` // liquid balancer shares handed to UnbondConvertAndStake with lock id 0
 }
 
 func DefaultConfig() Config {
@@ -49,6 +61,9 @@ func DefaultConfig() Config {
 		PoolOsmo: "20000000123", PoolFoo: "40000000000", SwapFee: "0.01", MintPerEpoch: 1000000,
 		Amounts: [2]string{"1234567890123456789", "777777777777777777"}, TopUp: "333333333333333333",
 		SwapOsmoIn: "3000000077", SwapFooIn: "7000000000", StartHeight: 119,
+		CLPoolFoo: "25000000000", CLPoolOsmo: "10000000123", CLSpread: "0.003",
+		CLAmounts: [2][2]string{{"10000000", "4000003"}, {"7777777", "3111113"}}, CLAdd: [2]string{"2500000", "1000001"},
+		CLSwapOsmoIn: "1500000077", CLSwapFooIn: "4000000000", UCSLiquid: "555555555555555555",
 	}
 }
 
@@ -61,10 +76,10 @@ var owners = []string{"A", "B"}
 
 // Op is one symbol of the alphabet.
 type Op struct {
-	K string `json:"k"`           // lockdel lock del undel unbond undelunbond beginunlock swap tick epoch jump ff
+	K string `json:"k"`           // lockdel lock del undel unbond undelunbond beginunlock unlockall swap tick epoch jump ff clcreate cladd clwithdraw clswap ucs ucsliq
 	A string `json:"a,omitempty"` // owner
 	V int    `json:"v,omitempty"` // validator index
-	P int    `json:"p,omitempty"` // index into the ledger's live locks (creation order)
+	P int    `json:"p,omitempty"` // index into the ledger's live locks (creation order); clwithdraw: index into the ledger's live positions
 	X int64  `json:"x,omitempty"` // numerator / direction / target height
 	Y int64  `json:"y,omitempty"` // denominator
 }
@@ -94,6 +109,23 @@ func (o Op) String() string {
 		return "Swap(foo in)"
 	case "ff":
 		return fmt.Sprintf("FastForward(1s blocks to height %d)", o.X)
+	case "unpool":
+		return fmt.Sprintf("UnPoolWhitelistedPool(%s)", o.A)
+	case "clcreate":
+		return fmt.Sprintf("CreateFullRangePositionAndSuperfluidDelegate(%s,val%d)", o.A, o.V)
+	case "cladd":
+		return fmt.Sprintf("AddToConcentratedLiquiditySuperfluidPosition(position of lock#%d)", o.P)
+	case "clwithdraw":
+		return fmt.Sprintf("WithdrawPosition(position#%d, all)", o.P)
+	case "clswap":
+		if o.X == 0 {
+			return "SwapOnConcentratedPool(bond denom in)"
+		}
+		return "SwapOnConcentratedPool(foo in)"
+	case "ucs":
+		return fmt.Sprintf("UnbondConvertAndStake(lock#%d,val%d)", o.P, o.V)
+	case "ucsliq":
+		return fmt.Sprintf("UnbondConvertAndStake(%s,liquid shares,val%d)", o.A, o.V)
 	}
 	return o.K
 }
@@ -116,17 +148,43 @@ type LockRec struct {
 	Unlocking bool
 	End       time.Time // unlock start + duration
 	WasSF     bool      // has been superfluid-undelegated at some point (vacuity only)
+	D         int       // denomination: 0 = balancer share, 1 = concentrated full-range share, 2 = a pool asset re-locked by unpooling (Denom)
+	Denom     string    // D == 2 only
+	Pos       uint64    // concentrated position this lock was created for (0: none / a split-off lock)
+}
+
+// PosRec is the harness's record of an owner's full-range position in the concentrated pool.
+type PosRec struct {
+	ID    uint64
+	Owner string
+	Liq   *big.Int // liquidity, 18 decimals (never modified in place)
+	Lock  uint64   // the lock created with the position while that lock is live, else 0
 }
 
 // Ledger is the reference state.
 type Ledger struct {
 	Locks      []LockRec
 	NextLockID uint64
-	Acct       [2]bool  // intermediary account (share denom, val i) has been created
-	Mult       *big.Int // osmo-equivalent multiplier, 18 decimals, as refreshed at the last epoch
+	Acct       [2][2]bool // intermediary account (denomination d, val i) has been created
+	Mult       *big.Int   // osmo-equivalent multiplier of the balancer share, 18 decimals, as refreshed at the last epoch
 	PoolOsmo   sdkmath.Int
-	Supply0    sdkmath.Int
-	Minted     sdkmath.Int
+	Shares     sdkmath.Int // balancer share supply (changes only when UnbondConvertAndStake exits the pool)
+	// concentrated side: the owners' live full-range positions; the full-range liquidity of the pool as the
+	// code documents it (sum over the full-range positions that exist: CLLive); the multiplier derived from it
+	// at the last epoch. CLEver / MultCLImpl model the RECORDED defect of the liquidity counter (it is only ever
+	// increased: sum over every full-range position ever written); they are used for one thing only: to give a
+	// violation that this recorded defect explains completely its own signature. Nothing is loosened by them.
+	Positions  []PosRec
+	NextPosID  uint64
+	CLLive     *big.Int
+	CLEver     *big.Int
+	MultCL     *big.Int
+	MultCLImpl *big.Int
+	// UnbondConvertAndStake: balancer shares each owner has converted, native delegation owner x validator
+	Conv    [2]sdkmath.Int
+	Native  [2][2]sdkmath.Int
+	Supply0 sdkmath.Int
+	Minted  sdkmath.Int
 	// model of the epoch timer (x/epochs documented rule: tick when block time is after start+duration,
 	// one tick per block, start advances by exactly one duration)
 	EpStarted bool
@@ -139,24 +197,33 @@ type Ledger struct {
 	LastOp        string
 	Withdrawn     int
 	// StakeOps counts, per intermediary account, the stake-changing steps (a delegation, an undelegation, a
-	// top-up; a partial undelegate-and-unbond is two) since the last epoch refresh
-	StakeOps [2]int
+	// top-up; a partial undelegate-and-unbond is two; an add-to-position is two; a conversion of a delegated
+	// lock is one) since the last epoch refresh
+	StakeOps [2][2]int
 }
 
 func (l *Ledger) Clone() *Ledger {
 	n := *l
 	n.Locks = append([]LockRec{}, l.Locks...)
+	n.Positions = append([]PosRec{}, l.Positions...)
 	n.Mult = new(big.Int).Set(l.Mult)
+	n.CLLive, n.CLEver = new(big.Int).Set(l.CLLive), new(big.Int).Set(l.CLEver)
+	n.MultCL, n.MultCLImpl = new(big.Int).Set(l.MultCL), new(big.Int).Set(l.MultCLImpl)
 	return &n
 }
 
 func (l *Ledger) digest() []byte {
 	var b strings.Builder
 	for _, k := range l.Locks {
-		fmt.Fprintf(&b, "%d/%s/%s/%d/%d/%d/%d/%v/%d;", k.ID, k.Owner, k.Amt, k.Dur, k.SF, k.Val, k.UndelAt.UnixNano(), k.Unlocking, k.End.UnixNano())
+		fmt.Fprintf(&b, "%d/%s/%s/%d/%d/%d/%d/%v/%d/%d/%d;", k.ID, k.Owner, k.Amt, k.Dur, k.SF, k.Val, k.UndelAt.UnixNano(), k.Unlocking, k.End.UnixNano(), k.D, k.Pos)
+		b.WriteString(k.Denom + ";")
+	}
+	for _, p := range l.Positions {
+		fmt.Fprintf(&b, "P%d/%s/%s/%d;", p.ID, p.Owner, p.Liq, p.Lock)
 	}
 	fmt.Fprintf(&b, "|%d|%v|%s|%s|%s|%v|%d|%d|%d|%d|%v", l.NextLockID, l.Acct, l.Mult, l.PoolOsmo, l.Minted, l.EpStarted, l.EpStart.UnixNano(), l.EpNum, l.Now.UnixNano(), l.Height, l.JustRefreshed)
 	fmt.Fprintf(&b, "|%v", l.StakeOps)
+	fmt.Fprintf(&b, "|%s|%d|%s|%s|%s|%s|%v|%v", l.Shares, l.NextPosID, l.CLLive, l.CLEver, l.MultCL, l.MultCLImpl, l.Conv, l.Native)
 	h := sha256.Sum256([]byte(b.String()))
 	return h[:16]
 }
@@ -169,6 +236,13 @@ type World struct {
 	PoolID      uint64
 	PoolAddr    sdk.AccAddress
 	ShareDenom  string
+	Denoms      [2]string // the two superfluid denominations: balancer share, concentrated full-range share
+	CLPoolID    uint64
+	CLPoolAddr  sdk.AccAddress
+	CLBaseLiq   *big.Int // liquidity of the pool creator's unlocked full-range position
+	SqrtMin     *big.Int // sqrt price of the lowest initialised tick, 36 decimals
+	MultCL0     *big.Int
+	NextPos0    uint64
 	BondDenom   string
 	TotalShares sdkmath.Int
 	Funds       map[string]sdkmath.Int // shares each owner was given
@@ -230,7 +304,9 @@ func NewWorld(cfg Config) *World {
 	fund := core.Coins("uosmo", "1000000000000000", sdk.DefaultBondDenom, "1000000000000000", FooDenom, "1000000000000000")
 	env := core.NewEnv(core.GenesisOpts{
 		NumValidators: 2,
-		Balances:      map[string]sdk.Coins{"A": core.Coins("uosmo", 1000000), "B": core.Coins("uosmo", 1000000), "P": fund, "T": fund},
+		// the owners' bond-denom and foo balances are only ever spent on concentrated positions
+		Balances: map[string]sdk.Coins{"A": core.Coins("uosmo", 1000000, sdk.DefaultBondDenom, 1000000000, FooDenom, 1000000000),
+			"B": core.Coins("uosmo", 1000000, sdk.DefaultBondDenom, 1000000000, FooDenom, 1000000000), "P": fund, "T": fund},
 		Mutate: func(a *app.OsmosisApp, gs app.GenesisState) {
 			cdc := a.AppCodec()
 			// the epoch the superfluid module follows, shortened
@@ -336,8 +412,95 @@ func NewWorld(cfg Config) *World {
 	if got := a.SuperfluidKeeper.GetOsmoEquivalentMultiplier(ctx, w.ShareDenom).BigInt(); got.Cmp(w.Mult0) != 0 {
 		panic(fmt.Sprintf("harness: reference multiplier %s differs from the registered one %s at setup", w.Mult0, got))
 	}
+	w.Denoms[0] = w.ShareDenom
+	// governance-level: the balancer pool may be unpooled (MsgUnPoolWhitelistedPool)
+	a.SuperfluidKeeper.SetUnpoolAllowedPools(ctx, []uint64{w.PoolID})
+	w.setupConcentrated(cfg)
 	w.Supply0 = a.BankKeeper.GetSupplyWithOffset(ctx, bd).Amount
 	return w
+}
+
+// setupConcentrated creates the concentrated pool foo/bond-denom by message (the bond denom is token1, the
+// quote asset), gives it an unlocked full-range position of the pool creator (so that an owner's position is
+// never the last one in the pool) and registers its full-range share denom as the second superfluid asset.
+func (w *World) setupConcentrated(cfg Config) {
+	a, ctx, bd := w.App, w.Env.Ctx, w.BondDenom
+	// governance-level settings: who may create pools, which denoms may be quote assets
+	p := a.ConcentratedLiquidityKeeper.GetParams(ctx)
+	p.IsPermissionlessPoolCreationEnabled = true
+	a.ConcentratedLiquidityKeeper.SetParams(ctx, p)
+	a.PoolManagerKeeper.SetParam(ctx, pmtypes.KeyAuthorizedQuoteDenoms, append(pmtypes.DefaultParams().AuthorizedQuoteDenoms, bd))
+	cm := clmodel.NewMsgCreateConcentratedPool(core.Acc("P"), FooDenom, bd, 100, osmomath.MustNewDecFromStr(cfg.CLSpread))
+	r := core.Deliver(a, ctx, &cm)
+	if !r.OK() {
+		panic(fmt.Sprintf("harness: concentrated pool creation failed: %v", r.Err))
+	}
+	var resp clmodel.MsgCreateConcentratedPoolResponse
+	mustUnmarshal(r.Res, &resp)
+	w.CLPoolID = resp.PoolID
+	w.Denoms[1] = cltypes.GetConcentratedLockupDenomFromPoolId(w.CLPoolID)
+	pool, err := a.ConcentratedLiquidityKeeper.GetConcentratedPoolById(ctx, w.CLPoolID)
+	if err != nil {
+		panic(err)
+	}
+	if pool.GetToken0() != FooDenom || pool.GetToken1() != bd {
+		panic("harness: concentrated pool token order")
+	}
+	w.CLPoolAddr = pool.GetAddress()
+	r = core.Deliver(a, ctx, &cltypes.MsgCreatePosition{PoolId: w.CLPoolID, Sender: core.Acc("P").String(), LowerTick: cltypes.MinInitializedTick, UpperTick: cltypes.MaxTick,
+		TokensProvided: sdk.NewCoins(sdk.NewCoin(FooDenom, mustInt(cfg.CLPoolFoo)), sdk.NewCoin(bd, mustInt(cfg.CLPoolOsmo))), TokenMinAmount0: sdkmath.ZeroInt(), TokenMinAmount1: sdkmath.ZeroInt()})
+	if !r.OK() {
+		panic(fmt.Sprintf("harness: base position failed: %v", r.Err))
+	}
+	var pr cltypes.MsgCreatePositionResponse
+	mustUnmarshal(r.Res, &pr)
+	w.CLBaseLiq = pr.LiquidityCreated.BigInt()
+	w.NextPos0 = pr.PositionId + 1
+	// sqrt price of the lowest initialised tick: price 10^-12, so 10^-6 exactly (36 decimals: 10^30)
+	w.SqrtMin = new(big.Int).Exp(big.NewInt(10), big.NewInt(30), nil)
+	if sm, err := clmath.TickToSqrtPrice(cltypes.MinInitializedTick); err != nil || sm.BigInt().Cmp(w.SqrtMin) != 0 {
+		panic(fmt.Sprintf("harness: sqrt price of the lowest tick is %v (%v), assumed 1e-6", sm, err))
+	}
+	if err := a.SuperfluidKeeper.AddNewSuperfluidAsset(ctx, sftypes.SuperfluidAsset{Denom: w.Denoms[1], AssetType: sftypes.SuperfluidAssetTypeConcentratedShare}); err != nil {
+		panic(err)
+	}
+	w.MultCL0 = w.clMultiplier(w.CLBaseLiq, w.sqrtPrice(ctx))
+	if got := a.SuperfluidKeeper.GetOsmoEquivalentMultiplier(ctx, w.Denoms[1]).BigInt(); got.Cmp(w.MultCL0) != 0 {
+		panic(fmt.Sprintf("harness: reference multiplier %s of the concentrated share differs from the registered one %s at setup", w.MultCL0, got))
+	}
+}
+
+// sqrtPrice is the concentrated pool's current sqrt price (36 decimals). The pool's swap arithmetic is C01's
+// subject; here the pool is an observer that tells the reference the price in force.
+func (w *World) sqrtPrice(ctx sdk.Context) *big.Int {
+	pool, err := w.App.ConcentratedLiquidityKeeper.GetConcentratedPoolById(ctx, w.CLPoolID)
+	if err != nil {
+		panic("harness: concentrated pool missing: " + err.Error())
+	}
+	return pool.GetCurrentSqrtPrice().BigInt()
+}
+
+// clMultiplier is the documented osmo-equivalent multiplier of a concentrated full-range share:
+// "OSMO amount in the pool / share supply", where the supply is the pool's full-range liquidity L (18
+// decimals) and the OSMO amount is the bond-denom (token1) amount underlying a full-range position of
+// liquidity L at the current price, rounded up: ceil(L * (sqrtP - sqrtPmin)), the product first rounded
+// half-even at 36 decimals as the 36-decimal type's Mul does; the quotient is the 18-decimal type's Quo.
+func (w *World) clMultiplier(liq, sqrtP *big.Int) *big.Int {
+	if liq.Sign() <= 0 {
+		return new(big.Int)
+	}
+	diff := new(big.Int).Sub(sqrtP, w.SqrtMin)
+	diff.Abs(diff)
+	prod := roundHalfEven(new(big.Int).Mul(diff, liq), e18) // 36 decimals
+	amt, rem := new(big.Int).QuoRem(prod, e36, new(big.Int))
+	if rem.Sign() > 0 {
+		amt.Add(amt, big.NewInt(1))
+	}
+	// Dec(amt).Quo(L): (amt*10^18) * 10^36 / L truncated, then rounded half-even to 18 decimals
+	q := new(big.Int).Mul(amt, e18)
+	q.Mul(q, e36)
+	q.Quo(q, liq)
+	return roundHalfEven(q, e18)
 }
 
 var (
@@ -383,7 +546,13 @@ func (w *World) NewLedger() *Ledger {
 		NextLockID: w.App.LockupKeeper.GetLastLockID(ctx) + 1,
 		Mult:       new(big.Int).Set(w.Mult0),
 		PoolOsmo:   mustInt(w.Cfg.PoolOsmo),
-		Supply0:    w.Supply0, Minted: sdkmath.ZeroInt(),
+		Shares:     w.TotalShares,
+		NextPosID:  w.NextPos0,
+		CLLive:     new(big.Int).Set(w.CLBaseLiq), CLEver: new(big.Int).Set(w.CLBaseLiq),
+		MultCL: new(big.Int).Set(w.MultCL0), MultCLImpl: new(big.Int).Set(w.MultCL0),
+		Conv:    [2]sdkmath.Int{sdkmath.ZeroInt(), sdkmath.ZeroInt()},
+		Native:  [2][2]sdkmath.Int{{sdkmath.ZeroInt(), sdkmath.ZeroInt()}, {sdkmath.ZeroInt(), sdkmath.ZeroInt()}},
+		Supply0: w.Supply0, Minted: sdkmath.ZeroInt(),
 		EpStarted: ei.EpochCountingStarted, EpStart: ei.StartTime, EpNum: ei.CurrentEpoch,
 		Now: ctx.BlockTime(), Height: ctx.BlockHeight(),
 	}
@@ -407,10 +576,30 @@ func (l *Ledger) find(id uint64) int {
 	return -1
 }
 
-func (l *Ledger) connected(val int) (n int, sum sdkmath.Int) {
+func (l *Ledger) findPos(id uint64) int {
+	for i := range l.Positions {
+		if l.Positions[i].ID == id {
+			return i
+		}
+	}
+	return -1
+}
+
+func ownerIdx(o string) int {
+	if o == "A" {
+		return 0
+	}
+	return 1
+}
+
+func (l *Ledger) removeLock(i int) {
+	l.Locks = append(append([]LockRec{}, l.Locks[:i]...), l.Locks[i+1:]...)
+}
+
+func (l *Ledger) connected(d, val int) (n int, sum sdkmath.Int) {
 	sum = sdkmath.ZeroInt()
 	for _, k := range l.Locks {
-		if k.SF == sfDelegated && k.Val == val {
+		if k.SF == sfDelegated && k.Val == val && k.D == d {
 			n++
 			sum = sum.Add(k.Amt)
 		}
@@ -451,7 +640,7 @@ func (w *World) Apply(ctx sdk.Context, l *Ledger, op Op, fail func(a, s, d strin
 		if i := l.find(resp.ID); i >= 0 {
 			// the lockup message server adds to an existing not-unlocking lock of the same owner/denom/duration
 			k := &l.Locks[i]
-			if k.Owner != op.A || k.Unlocking || k.Dur != w.U {
+			if k.Owner != op.A || k.Unlocking || k.Dur != w.U || k.D != 0 {
 				fail("lockdel.response-names-foreign-lock", "", fmt.Sprintf("response id %d is lock %+v", resp.ID, *k))
 			}
 			k.Amt = k.Amt.Add(amt)
@@ -463,8 +652,8 @@ func (w *World) Apply(ctx sdk.Context, l *Ledger, op Op, fail func(a, s, d strin
 			l.NextLockID = resp.ID + 1
 			l.Locks = append(l.Locks, LockRec{ID: resp.ID, Owner: op.A, Amt: amt, Dur: w.U, SF: sfDelegated, Val: op.V})
 		}
-		l.Acct[op.V] = true
-		l.StakeOps[op.V]++
+		l.Acct[0][op.V] = true
+		l.StakeOps[0][op.V]++
 		w.Vac[fmt.Sprintf("validator%d_used", op.V)]++
 	case "lock":
 		amt := mustInt(w.Cfg.TopUp)
@@ -476,13 +665,13 @@ func (w *World) Apply(ctx sdk.Context, l *Ledger, op Op, fail func(a, s, d strin
 		mustUnmarshal(r.Res, &resp)
 		if i := l.find(resp.ID); i >= 0 {
 			k := &l.Locks[i]
-			if k.Owner != op.A || k.Unlocking || k.Dur != w.U {
+			if k.Owner != op.A || k.Unlocking || k.Dur != w.U || k.D != 0 {
 				fail("lock.response-names-foreign-lock", "", fmt.Sprintf("response id %d is lock %+v", resp.ID, *k))
 			}
 			k.Amt = k.Amt.Add(amt)
 			switch k.SF {
 			case sfDelegated:
-				l.StakeOps[k.Val]++
+				l.StakeOps[k.D][k.Val]++
 				w.Vac["topup_of_delegated_lock"]++
 			case sfUndelegating:
 				w.Vac["topup_of_undelegating_lock"]++
@@ -509,10 +698,13 @@ func (w *World) Apply(ctx sdk.Context, l *Ledger, op Op, fail func(a, s, d strin
 			fail("delegate.accepted-on-ineligible-lock", fmt.Sprintf("sf=%d unlocking=%v", k.SF, k.Unlocking), fmt.Sprintf("lock %+v", *k))
 		}
 		k.SF, k.Val = sfDelegated, op.V
-		l.Acct[op.V] = true
-		l.StakeOps[op.V]++
+		l.Acct[k.D][op.V] = true
+		l.StakeOps[k.D][op.V]++
 		w.Vac[fmt.Sprintf("validator%d_used", op.V)]++
 		w.Vac["delegate_existing_lock"]++
+		if k.D == 1 {
+			w.Vac["cl_delegate_existing_lock"]++
+		}
 	case "undel":
 		if op.P >= len(l.Locks) {
 			return ctx, "rejected:no-such-lock"
@@ -532,8 +724,11 @@ func (w *World) Apply(ctx sdk.Context, l *Ledger, op Op, fail func(a, s, d strin
 			fail("undelegate.accepted-on-undelegated-lock", fmt.Sprintf("sf=%d", k.SF), fmt.Sprintf("lock %+v", *k))
 		}
 		k.SF, k.UndelAt, k.WasSF = sfUndelegating, l.Now, true
-		l.StakeOps[k.Val]++
+		l.StakeOps[k.D][k.Val]++
 		w.Vac["undelegate"]++
+		if k.D == 1 {
+			w.Vac["cl_undelegate"]++
+		}
 	case "unbond":
 		if op.P >= len(l.Locks) {
 			return ctx, "rejected:no-such-lock"
@@ -557,7 +752,7 @@ func (w *World) Apply(ctx sdk.Context, l *Ledger, op Op, fail func(a, s, d strin
 		}
 		k := &l.Locks[op.P]
 		part := k.Amt.MulRaw(op.X).QuoRaw(op.Y)
-		r := core.Deliver(a, ctx, sftypes.NewMsgSuperfluidUndelegateAndUnbondLock(core.Acc(k.Owner), k.ID, w.shareCoin(part)))
+		r := core.Deliver(a, ctx, sftypes.NewMsgSuperfluidUndelegateAndUnbondLock(core.Acc(k.Owner), k.ID, sdk.NewCoin(w.Denoms[k.D], part)))
 		if !r.OK() {
 			if k.SF == sfDelegated {
 				w.Vac["undelegate_of_delegated_lock_refused"]++
@@ -569,7 +764,7 @@ func (w *World) Apply(ctx sdk.Context, l *Ledger, op Op, fail func(a, s, d strin
 		if k.SF != sfDelegated {
 			fail("undelegate.accepted-on-undelegated-lock", fmt.Sprintf("sf=%d", k.SF), fmt.Sprintf("lock %+v", *k))
 		}
-		l.StakeOps[k.Val]++
+		l.StakeOps[k.D][k.Val]++
 		if part.Equal(k.Amt) {
 			if resp.LockId != k.ID {
 				fail("undelunbond.full-keeps-lock-id", "", fmt.Sprintf("response id %d, lock %d", resp.LockId, k.ID))
@@ -577,14 +772,20 @@ func (w *World) Apply(ctx sdk.Context, l *Ledger, op Op, fail func(a, s, d strin
 			k.SF, k.UndelAt, k.WasSF = sfUndelegating, l.Now, true
 			k.Unlocking, k.End = true, l.Now.Add(k.Dur)
 			w.Vac["full_undelegate_and_unbond"]++
+			if k.D == 1 {
+				w.Vac["cl_undelegate"]++
+			}
 		} else {
 			if resp.LockId != l.NextLockID {
 				fail("lock.ids-are-consecutive", "", fmt.Sprintf("response id %d, expected %d", resp.LockId, l.NextLockID))
 			}
 			l.NextLockID = resp.LockId + 1
-			l.StakeOps[k.Val]++
+			l.StakeOps[k.D][k.Val]++
 			k.Amt = k.Amt.Sub(part)
-			nl := LockRec{ID: resp.LockId, Owner: k.Owner, Amt: part, Dur: k.Dur, SF: sfUndelegating, Val: k.Val, UndelAt: l.Now, WasSF: true, Unlocking: true, End: l.Now.Add(k.Dur)}
+			nl := LockRec{ID: resp.LockId, Owner: k.Owner, Amt: part, Dur: k.Dur, SF: sfUndelegating, Val: k.Val, UndelAt: l.Now, WasSF: true, Unlocking: true, End: l.Now.Add(k.Dur), D: k.D}
+			if k.D == 1 {
+				w.Vac["cl_partial_undelegate_and_unbond"]++
+			}
 			l.Locks = append(l.Locks, nl)
 			w.Vac["partial_undelegate_and_unbond"]++
 		}
@@ -656,10 +857,251 @@ func (w *World) Apply(ctx sdk.Context, l *Ledger, op Op, fail func(a, s, d strin
 			l.PoolOsmo = l.PoolOsmo.Sub(resp.TokenOutAmount)
 		}
 		w.Vac["swap"]++
+	case "clcreate":
+		// a full-range position in the concentrated pool, locked for the unbonding period and delegated, in one message
+		fo, bo := mustInt(w.Cfg.CLAmounts[ownerIdx(op.A)][0]), mustInt(w.Cfg.CLAmounts[ownerIdx(op.A)][1])
+		r := core.Deliver(a, ctx, &sftypes.MsgCreateFullRangePositionAndSuperfluidDelegate{Sender: core.Acc(op.A).String(),
+			Coins: sdk.NewCoins(sdk.NewCoin(FooDenom, fo), sdk.NewCoin(w.BondDenom, bo)), ValAddr: w.Env.Vals[op.V].String(), PoolId: w.CLPoolID})
+		if !r.OK() {
+			return ctx, errClass(r.Err)
+		}
+		var resp sftypes.MsgCreateFullRangePositionAndSuperfluidDelegateResponse
+		mustUnmarshal(r.Res, &resp)
+		if resp.LockID != l.NextLockID || l.find(resp.LockID) >= 0 {
+			fail("lock.ids-are-consecutive", "", fmt.Sprintf("response lock id %d, expected %d", resp.LockID, l.NextLockID))
+		}
+		if resp.PositionID != l.NextPosID {
+			fail("clcreate.position-ids-are-consecutive", "", fmt.Sprintf("response position id %d, expected %d", resp.PositionID, l.NextPosID))
+		}
+		l.NextLockID, l.NextPosID = resp.LockID+1, resp.PositionID+1
+		// the response does not carry the liquidity: the concentrated-liquidity module (an observer here) is asked
+		pos, err := a.ConcentratedLiquidityKeeper.GetPosition(ctx, resp.PositionID)
+		if err != nil || pos.Address != core.Acc(op.A).String() || !pos.Liquidity.IsPositive() {
+			fail("clcreate.position-of-the-response-exists", "", fmt.Sprintf("position %d of the response: %+v (%v)", resp.PositionID, pos, err))
+			return ctx, "ok"
+		}
+		liq := pos.Liquidity.BigInt()
+		l.Locks = append(l.Locks, LockRec{ID: resp.LockID, Owner: op.A, Amt: pos.Liquidity.TruncateInt(), Dur: w.U, SF: sfDelegated, Val: op.V, D: 1, Pos: resp.PositionID})
+		l.Positions = append(l.Positions, PosRec{ID: resp.PositionID, Owner: op.A, Liq: liq, Lock: resp.LockID})
+		l.CLLive, l.CLEver = new(big.Int).Add(l.CLLive, liq), new(big.Int).Add(l.CLEver, liq)
+		l.Acct[1][op.V] = true
+		l.StakeOps[1][op.V]++
+		w.Vac[fmt.Sprintf("validator%d_used", op.V)]++
+		w.Vac["cl_create_position_and_delegate"]++
+	case "cladd":
+		// documented: the delegation is ended, the old lock and position are removed, a new position holding
+		// the old tokens plus the added ones is created, locked and delegated to the same validator
+		if op.P >= len(l.Locks) || l.Locks[op.P].D != 1 || l.Locks[op.P].Pos == 0 || l.findPos(l.Locks[op.P].Pos) < 0 {
+			return ctx, "rejected:no-such-position"
+		}
+		k := l.Locks[op.P]
+		r := core.Deliver(a, ctx, &sftypes.MsgAddToConcentratedLiquiditySuperfluidPosition{PositionId: k.Pos, Sender: core.Acc(k.Owner).String(),
+			TokenDesired0: sdk.NewCoin(FooDenom, mustInt(w.Cfg.CLAdd[0])), TokenDesired1: sdk.NewCoin(w.BondDenom, mustInt(w.Cfg.CLAdd[1]))})
+		if !r.OK() {
+			if k.SF == sfDelegated && !k.Unlocking {
+				w.Vac["cl_add_refused_on_delegated_position"]++
+			}
+			return ctx, errClass(r.Err)
+		}
+		var resp sftypes.MsgAddToConcentratedLiquiditySuperfluidPositionResponse
+		mustUnmarshal(r.Res, &resp)
+		if k.SF != sfDelegated || k.Unlocking {
+			fail("cladd.accepted-on-position-that-is-not-delegated", fmt.Sprintf("sf=%d unlocking=%v", k.SF, k.Unlocking), fmt.Sprintf("lock %+v", k))
+		}
+		if resp.LockId != l.NextLockID || l.find(resp.LockId) >= 0 {
+			fail("lock.ids-are-consecutive", "", fmt.Sprintf("response lock id %d, expected %d", resp.LockId, l.NextLockID))
+		}
+		if resp.PositionId != l.NextPosID {
+			fail("clcreate.position-ids-are-consecutive", "", fmt.Sprintf("response position id %d, expected %d", resp.PositionId, l.NextPosID))
+		}
+		l.NextLockID, l.NextPosID = resp.LockId+1, resp.PositionId+1
+		pi := l.findPos(k.Pos)
+		oldLiq, newLiq := l.Positions[pi].Liq, resp.NewLiquidity.BigInt()
+		l.removeLock(op.P)
+		l.Locks = append(l.Locks, LockRec{ID: resp.LockId, Owner: k.Owner, Amt: resp.NewLiquidity.TruncateInt(), Dur: w.U, SF: sfDelegated, Val: k.Val, D: 1, Pos: resp.PositionId})
+		l.Positions = append(append([]PosRec{}, l.Positions[:pi]...), l.Positions[pi+1:]...)
+		l.Positions = append(l.Positions, PosRec{ID: resp.PositionId, Owner: k.Owner, Liq: newLiq, Lock: resp.LockId})
+		l.CLLive = new(big.Int).Add(new(big.Int).Sub(l.CLLive, oldLiq), newLiq)
+		l.CLEver = new(big.Int).Add(l.CLEver, newLiq)
+		l.StakeOps[1][k.Val] += 2
+		w.Vac["cl_add_to_position"]++
+	case "clwithdraw":
+		if op.P >= len(l.Positions) {
+			return ctx, "rejected:no-such-position"
+		}
+		p := l.Positions[op.P]
+		bonded, lockState := false, "no live lock"
+		if i := l.find(p.Lock); p.Lock != 0 && i >= 0 {
+			k := l.Locks[i]
+			bonded = !k.Unlocking || k.End.After(l.Now)
+			lockState = fmt.Sprintf("sf=%d unlocking=%v", k.SF, k.Unlocking)
+		}
+		r := core.Deliver(a, ctx, &cltypes.MsgWithdrawPosition{PositionId: p.ID, Sender: core.Acc(p.Owner).String(), LiquidityAmount: osmomath.NewDecFromBigIntWithPrec(p.Liq, 18)})
+		if !r.OK() {
+			if bonded {
+				w.Vac["cl_withdraw_refused_while_lock_bonded"]++
+			}
+			return ctx, errClass(r.Err)
+		}
+		if bonded {
+			fail("clwithdraw.accepted-while-lock-bonded", lockState, fmt.Sprintf("MsgWithdrawPosition of position %d accepted at %s while its lock %d is %s (%+v)", p.ID, l.Now, p.Lock, lockState, l.Locks[l.find(p.Lock)]))
+		}
+		if i := l.find(p.Lock); p.Lock != 0 && i >= 0 {
+			l.Locks[i].Pos = 0
+		}
+		l.Positions = append(append([]PosRec{}, l.Positions[:op.P]...), l.Positions[op.P+1:]...)
+		l.CLLive = new(big.Int).Sub(l.CLLive, p.Liq)
+		w.Vac["cl_withdraw_accepted_after_lock_matured"]++
+	case "clswap":
+		in, out, amt := w.BondDenom, FooDenom, mustInt(w.Cfg.CLSwapOsmoIn)
+		if op.X == 1 {
+			in, out, amt = FooDenom, w.BondDenom, mustInt(w.Cfg.CLSwapFooIn)
+		}
+		r := core.Deliver(a, ctx, &pmtypes.MsgSwapExactAmountIn{Sender: core.Acc("T").String(), Routes: []pmtypes.SwapAmountInRoute{{PoolId: w.CLPoolID, TokenOutDenom: out}},
+			TokenIn: sdk.NewCoin(in, amt), TokenOutMinAmount: sdkmath.OneInt()})
+		if !r.OK() {
+			return ctx, errClass(r.Err)
+		}
+		w.Vac["cl_swap"]++
+	case "ucs", "ucsliq":
+		// UnbondConvertAndStake: the lock (or liquid shares) leaves the pool, the foo part is swapped to the bond
+		// denom in the same pool, the whole is delegated natively by the owner
+		owner, lockID, conv, state := op.A, uint64(0), mustInt(w.Cfg.UCSLiquid), "liquid"
+		var k LockRec
+		if op.K == "ucs" {
+			if op.P >= len(l.Locks) {
+				return ctx, "rejected:no-such-lock"
+			}
+			k = l.Locks[op.P]
+			owner, lockID, conv = k.Owner, k.ID, k.Amt
+			state = []string{"plain", "delegated", "undelegating"}[k.SF]
+			if k.Unlocking {
+				state += "_unlocking"
+			}
+			if k.D == 1 {
+				state = "concentrated_" + state
+			}
+		}
+		shares := sdk.NewCoin(w.ShareDenom, sdkmath.ZeroInt())
+		if op.K == "ucsliq" {
+			shares = w.shareCoin(conv)
+		}
+		before := a.BankKeeper.GetBalance(ctx, w.PoolAddr, w.BondDenom).Amount
+		r := core.Deliver(a, ctx, &sftypes.MsgUnbondConvertAndStake{LockId: lockID, Sender: core.Acc(owner).String(), ValAddr: w.Env.Vals[op.V].String(),
+			MinAmtToStake: sdkmath.ZeroInt(), SharesToConvert: shares})
+		if !r.OK() {
+			w.Vac["ucs_refused_"+state]++
+			return ctx, errClass(r.Err)
+		}
+		var resp sftypes.MsgUnbondConvertAndStakeResponse
+		mustUnmarshal(r.Res, &resp)
+		if op.K == "ucs" && k.D == 1 {
+			// documented: only balancer shares can be converted
+			fail("ucs.accepted-on-concentrated-lock", state, fmt.Sprintf("lock %+v", k))
+			return ctx, "ok"
+		}
+		after := a.BankKeeper.GetBalance(ctx, w.PoolAddr, w.BondDenom).Amount
+		if !before.Sub(after).Equal(resp.TotalAmtStaked) || !resp.TotalAmtStaked.IsPositive() {
+			fail("ucs.staked-amount-is-what-left-the-pool", state, fmt.Sprintf("response says %s staked, the pool's bond-denom balance went from %s to %s", resp.TotalAmtStaked, before, after))
+		}
+		if op.K == "ucs" {
+			if k.SF == sfDelegated {
+				l.StakeOps[k.D][k.Val]++
+			}
+			l.removeLock(op.P)
+		}
+		oi := ownerIdx(owner)
+		l.Conv[oi] = l.Conv[oi].Add(conv)
+		l.Shares = l.Shares.Sub(conv)
+		l.PoolOsmo = l.PoolOsmo.Sub(resp.TotalAmtStaked)
+		l.Native[oi][op.V] = l.Native[oi][op.V].Add(resp.TotalAmtStaked)
+		w.Vac["ucs_"+state]++
+	case "unpool":
+		// documented: every lock of the sender holding this pool's shares is undelegated if delegated, broken, exited
+		// from the pool, and each exit coin is re-locked in a new lock that unlocks over the old lock's remaining time
+		before := a.BankKeeper.GetBalance(ctx, w.PoolAddr, w.BondDenom).Amount
+		r := core.Deliver(a, ctx, &sftypes.MsgUnPoolWhitelistedPool{Sender: core.Acc(op.A).String(), PoolId: w.PoolID})
+		if !r.OK() {
+			return ctx, errClass(r.Err)
+		}
+		var resp sftypes.MsgUnPoolWhitelistedPoolResponse
+		mustUnmarshal(r.Res, &resp)
+		var gone []LockRec
+		kept := l.Locks[:0:0]
+		for _, k := range l.Locks {
+			if k.Owner == op.A && k.D == 0 {
+				gone = append(gone, k)
+			} else {
+				kept = append(kept, k)
+			}
+		}
+		l.Locks = kept
+		if len(resp.ExitedLockIds) != 2*len(gone) {
+			fail("unpool.two-new-locks-per-unpooled-lock", "", fmt.Sprintf("%d share locks of %s, response names %d new locks %v", len(gone), op.A, len(resp.ExitedLockIds), resp.ExitedLockIds))
+		}
+		wantRemaining := map[time.Duration]int{}
+		oi := ownerIdx(op.A)
+		for _, k := range gone {
+			state := []string{"plain", "delegated", "undelegating"}[k.SF]
+			rem := k.Dur
+			if k.Unlocking {
+				state += "_unlocking"
+				rem = k.End.Sub(l.Now)
+			}
+			wantRemaining[rem] += 2
+			if k.SF == sfDelegated {
+				l.StakeOps[0][k.Val]++
+			}
+			l.Conv[oi] = l.Conv[oi].Add(k.Amt)
+			l.Shares = l.Shares.Sub(k.Amt)
+			w.Vac["unpool_"+state]++
+			if k.SF == sfUndelegating && l.Now.Add(rem).Before(k.UndelAt.Add(w.U)) {
+				// the re-locked coins would be free before the undelegation has matured
+				fail("withdraw.unlock-end-not-before-undelegation-end", "unpool", fmt.Sprintf("lock %+v unpooled at %s: the new locks end %s, the undelegation matures %s", k, l.Now, l.Now.Add(rem), k.UndelAt.Add(w.U)))
+			}
+		}
+		relockedBond := sdkmath.ZeroInt()
+		for _, id := range resp.ExitedLockIds {
+			if id != l.NextLockID {
+				fail("lock.ids-are-consecutive", "", fmt.Sprintf("response id %d, expected %d", id, l.NextLockID))
+			}
+			l.NextLockID = id + 1
+			// the response does not carry the amounts: the lockup module is asked what the new lock holds
+			lk, err := a.LockupKeeper.GetLockByID(ctx, id)
+			if err != nil || len(lk.Coins) != 1 || (lk.Coins[0].Denom != w.BondDenom && lk.Coins[0].Denom != FooDenom) {
+				fail("unpool.new-lock-holds-one-pool-asset", "", fmt.Sprintf("new lock %d: %v (%v)", id, lk, err))
+				continue
+			}
+			if wantRemaining[lk.Duration] == 0 || !lk.IsUnlocking() || !lk.EndTime.Equal(l.Now.Add(lk.Duration)) {
+				fail("unpool.new-locks-unlock-over-the-remaining-time", "", fmt.Sprintf("new lock %d: duration %s end %s at %s; remaining times of the unpooled locks: %v", id, lk.Duration, lk.EndTime, l.Now, wantRemaining))
+			} else {
+				wantRemaining[lk.Duration]--
+			}
+			if lk.Coins[0].Denom == w.BondDenom {
+				relockedBond = relockedBond.Add(lk.Coins[0].Amount)
+			}
+			l.Locks = append(l.Locks, LockRec{ID: id, Owner: op.A, Amt: lk.Coins[0].Amount, Dur: lk.Duration, Unlocking: true, End: lk.EndTime, D: 2, Denom: lk.Coins[0].Denom})
+		}
+		after := a.BankKeeper.GetBalance(ctx, w.PoolAddr, w.BondDenom).Amount
+		if !before.Sub(after).Equal(relockedBond) {
+			fail("unpool.exit-coins-are-all-relocked", "", fmt.Sprintf("the pool paid out %s bond denom, the new locks hold %s", before.Sub(after), relockedBond))
+		}
+		l.PoolOsmo = l.PoolOsmo.Sub(before.Sub(after))
+		if len(gone) > 0 {
+			w.Vac["unpool"]++
+		}
 	default:
 		panic("unknown op " + op.K)
 	}
 	return ctx, "ok"
+}
+
+// denomOf is the denomination a lock of the ledger holds.
+func (w *World) denomOf(k LockRec) string {
+	if k.D == 2 {
+		return k.Denom
+	}
+	return w.Denoms[k.D]
 }
 
 // boundary is one block boundary dt later, followed by the ledger's bookkeeping: the epoch timer
@@ -686,17 +1128,25 @@ func (w *World) boundary(ctx sdk.Context, l *Ledger, dt time.Duration, fail func
 			l.Minted = l.Minted.Add(w.Mint)
 			w.Vac["mint_epochs"]++
 		}
-		nm := multiplierOf(l.PoolOsmo, w.TotalShares)
-		delegated := false
+		nm := multiplierOf(l.PoolOsmo, l.Shares)
+		delegated, delegatedCL := false, false
 		for _, k := range l.Locks {
-			delegated = delegated || k.SF == sfDelegated
+			delegated = delegated || (k.SF == sfDelegated && k.D == 0)
+			delegatedCL = delegatedCL || (k.SF == sfDelegated && k.D == 1)
 		}
 		if nm.Cmp(l.Mult) != 0 && delegated {
 			w.Vac["epoch_refresh_after_price_move"]++
 		}
 		l.Mult = nm
+		// the concentrated share: the price in force at this block's begin (nothing has touched the pool since)
+		sp := w.sqrtPrice(ctx)
+		nc := w.clMultiplier(l.CLLive, sp)
+		if nc.Cmp(l.MultCL) != 0 && delegatedCL {
+			w.Vac["cl_epoch_refresh_after_price_or_liquidity_move"]++
+		}
+		l.MultCL, l.MultCLImpl = nc, w.clMultiplier(l.CLEver, sp)
 		l.JustRefreshed = true
-		l.StakeOps = [2]int{}
+		l.StakeOps = [2][2]int{}
 		w.Vac["epoch_refresh"]++
 	}
 	// the timer model is an assumption about x/epochs (C17's subject), not part of this property: a
@@ -726,6 +1176,10 @@ func (w *World) boundary(ctx sdk.Context, l *Ledger, dt time.Duration, fail func
 				}
 			}
 			l.Withdrawn++
+			if pi := l.findPos(k.Pos); k.Pos != 0 && pi >= 0 && l.Positions[pi].Lock == k.ID {
+				l.Positions[pi].Lock = 0
+				w.Vac["cl_lock_matured_and_burnt_position_free"]++
+			}
 			continue
 		}
 		if k.SF == sfUndelegating && matured {
@@ -745,6 +1199,13 @@ type Alphabet struct {
 	MaxLocks  int  `json:"max_locks"` // lock-creating symbols are disabled beyond this many live locks
 	FullUndel bool `json:"full_undelegate_and_unbond"`
 	Probes    bool `json:"extra_rejection_probes"` // delegate an already delegated lock, unbond a delegated lock, begin-unlock an undelegating lock
+	// NoShareLocks disables the owner-level balancer-share symbols (LockTokens, LockAndSuperfluidDelegate, BeginUnlockingAll)
+	NoShareLocks bool `json:"no_owner_level_share_lock_symbols,omitempty"`
+	CL           bool `json:"concentrated_positions,omitempty"`          // CreateFullRangePositionAndSuperfluidDelegate, AddTo..., WithdrawPosition, swaps on the concentrated pool
+	CLPartial    bool `json:"concentrated_partial_undelegate,omitempty"` // also UndelegateAndUnbond 1/3 of a concentrated lock (split)
+	UCS          bool `json:"unbond_convert_and_stake,omitempty"`        // UnbondConvertAndStake on every lock and on liquid shares
+	UCSBothVals  bool `json:"convert_to_both_validators,omitempty"`
+	Unpool       int  `json:"unpool_whitelisted_pool_owners,omitempty"` // UnPoolWhitelistedPool for the first n owners
 }
 
 func (w *World) Enabled(al *Alphabet) func(ctx sdk.Context, l *Ledger, depth int) []Op {
@@ -752,6 +1213,18 @@ func (w *World) Enabled(al *Alphabet) func(ctx sdk.Context, l *Ledger, depth int
 		var ops []Op
 		for i, k := range l.Locks {
 			switch {
+			case k.SF == sfDelegated && k.D == 1:
+				// a concentrated lock: the whole-lock undelegate-and-unbond is the way to a withdrawable position
+				ops = append(ops, Op{K: "undel", P: i}, Op{K: "undelunbond", P: i, X: 1, Y: 1}, Op{K: "beginunlock", P: i}, Op{K: "unbond", P: i})
+				if k.Pos != 0 {
+					ops = append(ops, Op{K: "cladd", P: i})
+				}
+				if al.CLPartial {
+					ops = append(ops, Op{K: "undelunbond", P: i, X: 1, Y: 3})
+				}
+				if al.Probes {
+					ops = append(ops, Op{K: "del", P: i, V: 1 - k.Val})
+				}
 			case k.SF == sfDelegated:
 				// beginunlock and unbond on a delegated lock are the two ways a lock could "start unlocking while
 				// superfluid-delegated": both must be refused
@@ -770,24 +1243,70 @@ func (w *World) Enabled(al *Alphabet) func(ctx sdk.Context, l *Ledger, depth int
 			case k.SF == sfPlain && !k.Unlocking:
 				ops = append(ops, Op{K: "del", P: i, V: 0}, Op{K: "del", P: i, V: 1}, Op{K: "beginunlock", P: i})
 			}
+			if al.UCS && (k.D == 0 || (k.D == 1 && al.Probes)) {
+				// conversion to native stake, whatever the state of the lock (a concentrated lock must be refused)
+				v := 0
+				if k.SF != sfPlain {
+					v = k.Val
+				}
+				ops = append(ops, Op{K: "ucs", P: i, V: v})
+				if al.UCSBothVals {
+					ops = append(ops, Op{K: "ucs", P: i, V: 1 - v})
+				}
+			}
 		}
-		for _, o := range owners {
-			// MsgLockTokens: tops up the owner's not-unlocking lock if there is one, else creates a plain lock
+		if al.CL {
+			for i := range l.Positions {
+				// must be refused while the position's lock is bonded
+				ops = append(ops, Op{K: "clwithdraw", P: i})
+			}
+			for _, o := range owners {
+				has := false
+				for _, p := range l.Positions {
+					has = has || p.Owner == o
+				}
+				if !has && len(l.Locks) < al.MaxLocks {
+					ops = append(ops, Op{K: "clcreate", A: o, V: 0}, Op{K: "clcreate", A: o, V: 1})
+				}
+			}
+		}
+		for i := 0; i < al.Unpool; i++ {
 			has := false
 			for _, k := range l.Locks {
-				has = has || (k.Owner == o && !k.Unlocking)
-			}
-			if has || len(l.Locks) < al.MaxLocks {
-				ops = append(ops, Op{K: "lock", A: o})
+				has = has || (k.Owner == owners[i] && k.D == 0)
 			}
 			if has {
+				ops = append(ops, Op{K: "unpool", A: owners[i]})
+			}
+		}
+		if al.UCS {
+			ops = append(ops, Op{K: "ucsliq", A: "A", V: 0})
+			if al.UCSBothVals {
+				ops = append(ops, Op{K: "ucsliq", A: "B", V: 1})
+			}
+		}
+		for _, o := range owners {
+			// MsgLockTokens: tops up the owner's not-unlocking share lock if there is one, else creates a plain lock
+			has, hasAny := false, false
+			for _, k := range l.Locks {
+				has = has || (k.Owner == o && !k.Unlocking && k.D == 0)
+				hasAny = hasAny || (k.Owner == o && !k.Unlocking)
+			}
+			if (has || len(l.Locks) < al.MaxLocks) && !al.NoShareLocks {
+				ops = append(ops, Op{K: "lock", A: o})
+			}
+			if hasAny {
 				ops = append(ops, Op{K: "unlockall", A: o})
 			}
-			if len(l.Locks) < al.MaxLocks || has {
+			if (len(l.Locks) < al.MaxLocks || has) && !al.NoShareLocks {
 				ops = append(ops, Op{K: "lockdel", A: o, V: 0}, Op{K: "lockdel", A: o, V: 1})
 			}
 		}
-		ops = append(ops, Op{K: "swap", X: 0}, Op{K: "swap", X: 1}, Op{K: "tick"}, Op{K: "epoch"}, Op{K: "jump"})
+		ops = append(ops, Op{K: "swap", X: 0}, Op{K: "swap", X: 1})
+		if al.CL {
+			ops = append(ops, Op{K: "clswap", X: 0}, Op{K: "clswap", X: 1})
+		}
+		ops = append(ops, Op{K: "tick"}, Op{K: "epoch"}, Op{K: "jump"})
 		return ops
 	}
 }
